@@ -66,6 +66,7 @@ F = [
 for f in F:
     f['status'] = 'open'
 FIXED = [
+ 'fixed: property=C17 9ab3495 a pipeline whose sync nodes are all tagged non_async (executed in place) failed with "thread pool is not registered" when no thread pool was registered: the builder counted such nodes as users of the thread pool (witnesses/D41.json)',
  'fixed: property=C02 9a8097c hang when a switch node returns an unhashable label (a list, a dict): TypeError in the case lookup killed the helper task of the switch and nobody was notified (witnesses/D40.json); also C09',
  'fixed: property=C03 126f370 a switch inside a recurrent subgraph kept the decision of the previous iteration: when the label changed, the consumer of the switch was started before the newly selected case had run and received None (witnesses/D39.json); also C01 C09 C11',
  'fixed: property=C09 b6e770f a switch case declared under a falsy label (\'\' or 0) was executed although another case was selected (witnesses/D38.json)',
